@@ -1,7 +1,7 @@
 """topo_fixtures: the hand-built initial topologies of C04, as reference-model data (see topo_model).
 
 One fixture per shortcut an implementation may take; each has at most 6 atoms so that *every* non-empty
-strictly increasing atom subset (2^n - 1) is an event ("protein", 20 atoms, uses the subset menu).  Most
+strictly increasing atom subset (2^n - 1) is an event ("protein", 22 atoms, uses the subset menu).  Most
 fixtures use plain residue names, for which a PDB reader neither renames atoms nor adds template bonds, so
 every bond must travel through CONECT records; "stdlig", "waterion" and "protein" mix standard residues
 (CYS, GLY, HOH) with a ligand and an ion (see the PDB part of the capability table in topo_model).
@@ -63,19 +63,22 @@ FIXTURES = {
          (0, "S", "WWW", 7, "W", [("O", "O", 2)]),
          (0, "S", "WWW", 7, "W", [("O", "O", 3)])],
         [(0, 1, None, None)]),
-    # standard residues mixed with a ligand: trimmed CYS (template bonds CA-CB, CB-SG present), a ligand bonded to
-    # the CYS sulfur (standard - non-standard) and inside itself (non-standard - non-standard), and a sodium ion
-    # coordinated by the ligand; 6 atoms, so every subset is an event
+    # standard residues mixed with a ligand: trimmed CYS (template bonds CA-CB, CB-SG present) FOLLOWED IN THE SAME
+    # CHAIN by a ligand whose atom names (O1, O2) are alternative spellings in the reader's protein name table (a
+    # reader must leave them alone: LIG is not a known residue); CYS SG - ligand (standard - non-standard), a bond
+    # inside the ligand, and a sodium ion coordinated by it; 6 atoms, so every subset is an event
     "stdlig": _mk(
         [(0, "A", "CYS", 1, "", [("CA", "C", 1), ("CB", "C", 2), ("SG", "S", 3)]),
-         (1, "B", "LIG", 2, "", [("C1", "C", 5), ("C2", "C", 6)]),
+         (0, "A", "LIG", 2, "", [("O1", "O", 4), ("O2", "O", 5)]),
          (1, "B", "NA", 3, "", [("NA", "Na", 7)])],
         [(0, 1, None, None), (1, 2, None, None), (2, 3, None, None), (3, 4, None, None), (4, 5, None, None)]),
-    # water - ion: HOH (template bonds O-H1, O-H2) whose oxygen is bonded to a sodium ion of another residue
+    # water - ion: HOH (template bonds O-H1, O-H2) whose oxygen is bonded to a sodium ion; the water is followed in the
+    # same chain by a ligand whose atom names (OW, HW1) are alternative spellings in the reader's water name table
     "waterion": _mk(
         [(0, None, "HOH", 1, "", [("O", "O", 1), ("H1", "H", 2), ("H2", "H", 3)]),
-         (0, None, "NA", 2, "", [("NA", "Na", 4)])],
-        [(0, 1, None, None), (0, 2, None, None), (0, 3, None, None)]),
+         (0, None, "LW", 2, "", [("OW", "O", 4), ("HW1", "H", 5)]),
+         (0, None, "NA", 3, "", [("NA", "Na", 6)])],
+        [(0, 1, None, None), (0, 2, None, None), (0, 5, None, None), (3, 4, None, None), (3, 5, None, None)]),
     # GLY-CYS-CYS peptide (all template and peptide bonds present), a disulfide between the two CYS, a ligand
     # bonded to the first CYS sulfur, a water and an ion bonded to its oxygen, and one bond between standard
     # residues that no PDB record can hold (GLY O - HOH H1, think hydrogen bond: not judged through .pdb)
@@ -84,18 +87,20 @@ FIXTURES = {
          (0, "A", "CYS", 2, "P", [("N", "N", 5), ("CA", "C", 6), ("C", "C", 7), ("O", "O", 8), ("CB", "C", 9),
                                   ("SG", "S", 10)]),
          (0, "A", "CYS", 3, "P", [("N", "N", 11), ("CA", "C", 12), ("CB", "C", 13), ("SG", "S", 14)]),
-         (1, "L", "LIG", 1, "L", [("C1", "C", 16), ("C2", "C", 17)]),
-         (2, "W", "HOH", 1, "W", [("O", "O", 19), ("H1", "H", 20), ("H2", "H", 21)]),
-         (2, "W", "NA", 2, "W", [("NA", "Na", 22)])],
+         # the ligand follows the last amino acid in the same chain; O1, H1, HN, 1HB are alternative spellings of
+         # O, H, H, HB1 in the reader's amino-acid name tables and must come back unchanged for a ligand
+         (0, "A", "LIG", 4, "P", [("O1", "O", 15), ("H1", "H", 16), ("HN", "H", 17), ("1HB", "H", 18)]),
+         (1, "W", "HOH", 1, "W", [("O", "O", 20), ("H1", "H", 21), ("H2", "H", 22)]),
+         (1, "W", "NA", 2, "W", [("NA", "Na", 23)])],
         [(0, 1, None, None), (1, 2, None, None), (2, 3, "Double", 2),                       # GLY
          (2, 4, "Amide", 1),                                                                # peptide GLY C - CYS N
          (4, 5, None, None), (5, 6, None, None), (6, 7, None, None), (5, 8, None, None), (8, 9, None, None),  # CYS 2
          (6, 10, None, None),                                                               # peptide CYS C - CYS N
          (10, 11, None, None), (11, 12, None, None), (12, 13, None, None),                  # CYS 3
          (9, 13, "Single", 1),                                                              # disulfide
-         (9, 14, None, None), (14, 15, None, None),                                         # SG - LIG C1, LIG C1 - C2
-         (16, 17, None, None), (16, 18, None, None), (16, 19, None, None),                  # HOH, O - NA
-         (3, 17, None, None)]),                                                             # GLY O - HOH H1
+         (9, 14, None, None), (14, 15, None, None), (14, 16, None, None), (14, 17, None, None),   # SG - LIG O1, inside LIG
+         (18, 19, None, None), (18, 20, None, None), (18, 21, None, None),                  # HOH, O - NA
+         (3, 19, None, None)]),                                                             # GLY O - HOH H1
     # two atoms with five bonded partners each whose mutual bond is the fourth partner of both: needs a second
     # CONECT line per atom
     "hub": _mk(
@@ -110,7 +115,7 @@ PARTNER = _mk([(0, "Z", "JJJ", 0, "SJ", [("X1", "C", None), ("X2", "VS", None)])
 
 # residue names for which a PDB file is a faithful carrier (no renaming, no template bonds on reading)
 PLAIN_RESNAMES = frozenset(["LIG", "MOL", "XXX", "AAA", "BBB", "CCC", "DDD", "RNG", "TAI", "VSR", "AMD", "RA", "RB", "RC",
-                            "JJJ", "WWW", "NA", "HUB"])
+                            "JJJ", "WWW", "NA", "HUB", "LW"])
 
 ORDER = ["chains", "resseq", "serials", "virtual", "segments", "sameres", "stdlig", "waterion", "protein", "hub"]
 
